@@ -62,7 +62,12 @@ Definition opost (o : dop) (r : res) (evs : list ev) (before tf : otrk) : otrk :
               fail08 t (res_eqb r (ROk (Error (panic_msg pk))) && cstate_eqb (k_st k) (Error (panic_msg pk)))
           | Some _ => fail08 t false
           | None =>
-              fail08 (fail07 t (res_eqb r RErr && negb (k_events k))) (negb (res_eqb r RUnwound))
+              let refusable := match k_st k0 with
+                               | Suspend _ ts => o_clock before <? ts
+                               | Syscall _ _ (SSuspend _) => true
+                               | _ => false
+                               end in
+              fail08 (fail07 t (res_eqb r RErr && negb (k_events k) && refusable)) (negb (res_eqb r RUnwound))
           end
   | ExtRunning i | ExtSyscall i _ _ _ =>
       let k := get_k t i in
@@ -93,7 +98,15 @@ Definition ffail09 (f : foc) (b : bool) : foc :=
   {| f_clock := f_clock f; f_k := f_k f; f_07 := f_07 f; f_08 := f_08 f; f_09 := f_09 f && b |}.
 
 (** what [Resume] checks about the way the body run ended *)
-Definition resume_tail (r : res) (t : foc) : foc :=
+(** a resume may be refused only while the coroutine is not yet due, or parked in a syscall wait *)
+Definition refusable (clk0 : Z) (k0 : ctrk) : bool :=
+  match k_st k0 with
+  | Suspend _ ts => clk0 <? ts
+  | Syscall _ _ (SSuspend _) => true
+  | _ => false
+  end.
+
+Definition resume_tail (r : res) (rf : bool) (t : foc) : foc :=
   let k := f_k t in
   if k_mal k then t
   else
@@ -114,7 +127,7 @@ Definition resume_tail (r : res) (t : foc) : foc :=
         ffail08 t (res_eqb r (ROk (Error (panic_msg pk))) && cstate_eqb (k_st k) (Error (panic_msg pk)))
     | Some _ => ffail08 t false
     | None =>
-        ffail08 (ffail07 t (res_eqb r RErr && negb (k_events k))) (negb (res_eqb r RUnwound))
+        ffail08 (ffail07 t (res_eqb r RErr && negb (k_events k) && rf)) (negb (res_eqb r RUnwound))
     end.
 
 Definition first_ok (i : nat) (evs : list ev) (k0 : ctrk) (arg : Z) : bool :=
@@ -125,7 +138,7 @@ Definition first_ok (i : nat) (evs : list ev) (k0 : ctrk) (arg : Z) : bool :=
   | None => true
   end.
 
-Definition opost_f (o : dop) (r : res) (evs : list ev) (k0 : ctrk) (pend : bool) (f : foc) : foc :=
+Definition opost_f (o : dop) (r : res) (evs : list ev) (k0 : ctrk) (clk0 : Z) (pend : bool) (f : foc) : foc :=
   let i := op_idx o in
   let t := ffail07 f pend in
   if res_eqb r RBad then ffail07 t (is_nil evs)
@@ -141,7 +154,7 @@ Definition opost_f (o : dop) (r : res) (evs : list ev) (k0 : ctrk) (pend : bool)
                   | s => res_eqb r (ROk s)
                   end)
       else
-        resume_tail r (ffail08 t (first_ok i evs k0 arg))
+        resume_tail r (refusable clk0 k0) (ffail08 t (first_ok i evs k0 arg))
   | ExtRunning _ | ExtSyscall _ _ _ _ =>
       let k := f_k t in
       if k_mal k then t
@@ -166,10 +179,10 @@ Ltac split_all_matches :=
 
 Lemma opost_focus (o : dop) (r : res) (evs : list ev) (before tf : otrk) :
   focus (opost o r evs before tf) (op_idx o)
-  = opost_f o r evs (get_k before (op_idx o))
+  = opost_f o r evs (get_k before (op_idx o)) (o_clock before)
             (forallb pend_ok (o_cos tf)) (focus tf (op_idx o)).
 Proof.
-  unfold opost, opost_f, pend_ok, resume_tail, first_ok.
+  unfold opost, opost_f, pend_ok, resume_tail, first_ok, refusable.
   destruct (res_eqb r RBad); [reflexivity|].
   destruct o; cbn [op_idx]; cbv zeta; unfold focus, get_k;
     cbn [fail07 fail08 fail09 ffail07 ffail08 ffail09 o_cos o_clock o_c07 o_c08 o_c09
